@@ -119,7 +119,8 @@ ServerRows ==
 AdvDialRows ==
   {[lnames |-> lnames, sni |-> sni, cert |-> c, proof |-> p, extra |-> extra,
     expect |-> ClientAccept(lnames, sni, c, p)] :        \* further certificates in the chain change nothing
-     lnames \in {{"n1"}, {"n1", "n2"}}, sni \in {"n1", "n2", "n3"}, p \in {"E", "X"}, extra \in {"none", "X", "Y"},
+     \* sni "none": a hello that names no network at all (a client dialing by IP address)
+     lnames \in {{"n1"}, {"n1", "n2"}}, sni \in {"n1", "n2", "n3", "none"}, p \in {"E", "X"}, extra \in {"none", "X", "Y"},
      c \in {x \in Certs : x.wf /\ x.validity = "ok" /\ x.alg = "ed25519" /\ x.san \in {"n1", "n2", "n3"}
                            /\ x.subj \in {"X", "E"} /\ x.signer \in {"X", "E"} /\ x.decoy = "none"}}
 
